@@ -296,7 +296,7 @@ func (g *hostileGen) honest() (claim, bool) {
 var mutationNames = []string{"swap-targets", "swap-hashes", "target->sibling", "target->parent", "target->cousin", "target->other-tree", "dup-target",
 	"flip-proof-hash", "drop-proof-hash", "insert-proof-hash", "dup-proof-hash", "permute-proof", "hash->fresh", "hash->root", "hash->other-node",
 	"hash->zero", "drop-hash", "target->beyond", "add-nested-target", "target->child", "append-junk-proof", "hash->sibling-hash",
-	"hash-tail-flip", "proof-tail-flip", "hash-head-flip"}
+	"hash-tail-flip", "proof-tail-flip", "hash-head-flip", "drop-all-hashes"}
 
 // mutate applies one structured mutation; ok=false if it does not apply.
 func (g *hostileGen) mutate(c claim) (claim, bool) {
@@ -493,6 +493,11 @@ func (g *hostileGen) mutate(c claim) (claim, bool) {
 			return c, false
 		}
 		c.Hashes = c.Hashes[:len(c.Hashes)-1]
+	case "drop-all-hashes":
+		if len(c.Hashes) == 0 {
+			return c, false
+		}
+		c.Hashes = c.Hashes[:0]
 	}
 	c.Kind += "+" + m
 	return c, true
